@@ -110,6 +110,35 @@ def gen_program(rng):
         jmp = {"z80": "jp", "8051": "ljmp", "6502": "jmp", "6809": "jmp"}[cpu]
         n = rng.choice([255, 256, 257, 300])
         L += ["+\t%s %d" % (db, i & 255) for i in range(n)] + ["\t%s +" % jmp, "\t%s ++" % jmp, "\t%s -" % jmp, "+\t%s 1" % db, "+\t%s 2" % db]
+    if cpu == "8051" and rng.chance(0.35):
+        # a visit to another segment inside a SAVE / RESTORE frame; the code behind it carries on in CODE
+        for _ in range(rng.randint(1, 2)):
+            pos = rng.randint(5, len(L))
+            L[pos:pos] = ["\tsave", "\tsegment %s" % rng.choice(["data", "xdata", "idata"]), "\t%s %d" % (ds, rng.randint(1, 4)), "\trestore",
+                          "\t%s %d" % (db, rng.below(256))]
+    if rng.chance(0.3):
+        # a large symbol table built from sections that export labels (GLOBAL: a second, qualified entry per label), read
+        # through forward references and through IFDEF-selected macro variants: how the table is stored must not matter
+        n = rng.randint(20, 120)
+        names = []
+        for i in range(n):
+            names.append("".join(rng.choice("abcdefghijklmnopqrstuvwxyz") for _ in range(rng.randint(2, 7))) + "%d" % i)
+        kinds = [rng.choice(["equ", "label", "global", "global", "public"]) for _ in names]
+        # GLOBAL makes the label known outside under the qualified name <section>_<label>
+        B = ["\t%s %s" % (dw, "sc%s_%s" % (nm, nm) if kd == "global" else nm) for nm, kd in zip(names, kinds) if rng.chance(0.5)]
+        for i, nm in enumerate(names):
+            r = {"equ": 0, "label": 1}.get(kinds[i], 2)
+            if r == 0:
+                B.append("%s\tequ %d" % (nm, i))
+            elif r == 1:
+                B.append("%s:\t%s %d" % (nm, db, i & 255))
+            else:
+                B += ["\tsection sc%s" % nm, "\t%s %s" % (kinds[i], nm), "%s:\t%s %d" % (nm, db, i & 255),
+                      "\tendsection"]
+            if rng.chance(0.1):
+                B += ["\tifdef %s" % rng.choice(names[:i + 1]), "mv%d\tmacro\n\t%s 1\n\tendm" % (i, db), "\telse",
+                      "mv%d\tmacro\n\t%s 2,3\n\tendm" % (i, db), "\tendif", "\tmv%d" % i]
+        L += B
     if rng.chance(0.3):
         # character constants kept in symbols and used as strings later: their type must not depend on who looks at them
         pos = rng.randint(5, len(L))
@@ -174,6 +203,8 @@ def make_scenario(b, rng, ref=False, force=None):
                     if o[0] == "-t" and any(x[0] == "-t" for x in sel):
                         continue
                     sel.append(o)
+            if ["-A"] not in sel and any(b"\tsection sc" in v for v in b["disk"].values()) and rng.chance(0.5):
+                sel.append(["-A"])  # big symbol tables are what the balanced tree is for
             if not b["has_brace"] and rng.chance(0.2):
                 sel.append(rng.choice(HEX_OPTS))
             if sel:
